@@ -362,7 +362,7 @@ func ruleEntityActions(r *Run) {
 				cx := ast.Unparen(path.Events[j].Cond)
 				switch cx.(type) {
 				case *ast.Ident, *ast.SelectorExpr:
-					if strings.Contains(r.P.Canon(path.Events[j].Fn, cx), "call:State."+getName+"(") {
+					if cc := r.P.Canon(path.Events[j].Fn, cx); strings.Contains(cc, "call:State."+getName+"(") || strings.HasPrefix(cc, "recv.state.entityActions[") {
 						if path.Events[j].Val {
 							stored = "hit"
 						} else {
@@ -374,8 +374,13 @@ func ruleEntityActions(r *Run) {
 			if strings.HasPrefix(g.Subject, "timelt:") {
 				parts := strings.SplitN(strings.TrimPrefix(g.Subject, "timelt:"), "<", 2)
 				a, b := parts[0], parts[1]
-				newFirst := strings.Contains(a, ea+".Timestamp") && strings.Contains(b, "call:State."+getName+"(") && strings.Contains(b, ".Timestamp")
-				oldFirst := strings.Contains(b, ea+".Timestamp") && strings.Contains(a, "call:State."+getName+"(") && strings.Contains(a, ".Timestamp")
+				// the other side is the stored action's timestamp: what the lookup returned, or (the lookup looked into)
+				// the element of the state's table it read
+				fromState := func(c string) bool {
+					return !strings.HasPrefix(c, ea) && strings.Contains(c, ".Timestamp") && (strings.Contains(c, "call:State."+getName+"(") || strings.HasPrefix(c, "recv.state.entityActions["))
+				}
+				newFirst := strings.Contains(a, ea+".Timestamp") && fromState(b)
+				oldFirst := strings.Contains(b, ea+".Timestamp") && fromState(a)
 				switch {
 				case newFirst: // new < stored
 					older = g.Outcome
